@@ -72,17 +72,26 @@ def getShiftRange (self amt : SI) : Nat × Nat :=
 
 def recFuel : Nat := 64
 
+/-- the loop `for amount in range(lower, upper + 1): si_ = f(amount); ret = si_ if ret is None else ret.union(si_)` -/
+def overRangeAux (f : Nat → R SI) : List Nat → Option SI → R (Option SI)
+  | [], acc => pure acc
+  | k :: ks, acc =>
+    match f k with
+    | .error e => .error e
+    | .ok si =>
+      match acc with
+      | none => overRangeAux f ks (some si)
+      | some r =>
+        match r.union si with
+        | .error e => .error e
+        | .ok u => overRangeAux f ks (some u)
+
 /-- union of `f amount` for `lower ≤ amount ≤ upper`, `top` when the range is empty, then `normalize` -/
-def overRange (self : SI) (lower upper : Nat) (f : Nat → R SI) : R SI := do
-  let mut ret : Option SI := none
-  for amount in List.range (upper + 1 - lower) do
-    let si ← f (lower + amount)
-    ret ← match ret with
-      | none => pure (some si)
-      | some r => do pure (some (← r.union si))
-  match ret with
-  | none => pure (SI.top self.bits)
-  | some r => pure r.renorm
+def overRange (self : SI) (lower upper : Nat) (f : Nat → R SI) : R SI :=
+  match overRangeAux f ((List.range (upper + 1 - lower)).map (lower + ·)) none with
+  | .error e => .error e
+  | .ok none => .ok (SI.top self.bits)
+  | .ok (some r) => .ok r.renorm
 
 def SI.rshiftLogicalRange (s : SI) (lower upper : Nat) : R SI := overRange s lower upper (rshiftLogicalK recFuel s)
 def SI.rshiftArithRange (s : SI) (lower upper : Nat) : R SI := overRange s lower upper (rshiftArithK recFuel s)
